@@ -1,6 +1,7 @@
 package harness
 
 import (
+	"sync"
 	"math/rand"
 	"net"
 	"testing"
@@ -114,9 +115,25 @@ func TestC12(t *testing.T) {
 	r := newRand(12)
 
 	// (a) round trips
+	var held, heldCopy []byte
 	for i := 0; i < scale(1500, 60000); i++ {
 		m := randMsg(r)
 		b := emitAssemble(c, "rt", m)
+		// the encoding of the message before this one, kept by its caller while this one was assembled (and, every few messages,
+		// while eight goroutines assembled others): still the bytes it was
+		if i%50 == 7 {
+			var wg sync.WaitGroup
+			for g := 0; g < 8; g++ {
+				wg.Add(1)
+				mg := randMsg(r)
+				go func() { defer wg.Done(); defer func() { recover() }(); mg.Assemble() }()
+			}
+			wg.Wait()
+		}
+		if held != nil && i%10 < 3 {
+			c.add(1204, "rt/held", true, args(B(heldCopy), B(held)), args(L{1}))
+		}
+		held, heldCopy = b, append([]byte{}, b...)
 		if b != nil {
 			if d := emitDhcpDecode(c, "rt", b); d != nil {
 				emitDecodeOptions(c, "rt", d.Options)
